@@ -176,6 +176,7 @@ pub struct Stats {
     pub runs: u64,
     pub runs_faulty: u64,
     pub runs_nontrivial: u64,
+    pub runs_wide: u64,
     pub ops_exec: u64,
     pub ops_skipped: u64,
     pub op_counts: [u64; N_OPK],
@@ -198,6 +199,7 @@ impl Stats {
             runs: 0,
             runs_faulty: 0,
             runs_nontrivial: 0,
+            runs_wide: 0,
             ops_exec: 0,
             ops_skipped: 0,
             op_counts: [0; N_OPK],
@@ -218,6 +220,7 @@ impl Stats {
         self.runs += o.runs;
         self.runs_faulty += o.runs_faulty;
         self.runs_nontrivial += o.runs_nontrivial;
+        self.runs_wide += o.runs_wide;
         self.ops_exec += o.ops_exec;
         self.ops_skipped += o.ops_skipped;
         for i in 0..N_OPK {
